@@ -423,6 +423,12 @@ def _correspondence(ctx, pio, Interferogram, tmp):
             lines.append('zread ' + (raw.hex() if raw is not None else '00'))
             zrec.append(rec)
 
+    # every header field of a few written files, as the real reader decodes it
+    metas = []
+    for rec in [r for r in zrec if 'raw' in r and 'out' in r][:ctx.scale(6, 40)]:
+        lines.append('zmeta ' + rec['raw'].hex())
+        metas.append(rec)
+
     # truncation: three written files
     trunc = []
     tsel = [c for c in zc if 2 <= c['a'].size <= 48 and nontrivial(c) and c['nan'] in ('none', 'corner', 'scatter')
@@ -569,6 +575,27 @@ def _correspondence(ctx, pio, Interferogram, tmp):
         bad = judge_zygo(a, c['dx'], c['wvl'], out, dx_out, wvl_out, meta)
         if bad:
             ctx.pred_fail(f'{route}.roundtrip', case, bad)
+
+    for rec in metas:
+        mm = dict(x.split('=', 1) for x in next(rep).split())
+        meta = rec['out'][5]
+        case = descr(rec['c'], {'route': rec['route']})
+        for name, v in meta.items():
+            ctx.case('zygo.meta', {'field': name, 'shape': rec['c']['shape'], 'dx': rec['c']['dx'], 'wvl': rec['c']['wvl']}, nontrivial=True)
+            if isinstance(v, bool) or v is None:
+                got = repr(v)
+            elif isinstance(v, int):
+                got = f'i{v}'
+            elif isinstance(v, float):
+                got = 'f' + str(struct.unpack('>I', struct.pack('>f', v))[0])
+            elif isinstance(v, bytes):
+                got = 's' + v.rstrip(b'\x00').hex()
+            else:
+                got = 's' + str(v).encode('utf-8').hex()
+            if mm.get(name) != got:
+                ctx.disagree('zygo.meta', {'field': name, **case}, got, mm.get(name))
+        if set(mm) != set(meta):
+            ctx.disagree('zygo.meta', case, sorted(set(meta) - set(mm))[:5], sorted(set(mm) - set(meta))[:5], note='field sets differ')
 
     for t in trunc:
         c = t['c']
@@ -852,7 +879,8 @@ MANIFEST_ENTRY = {
                   'correspondence of written files and bit-exact correspondence of read arrays against the Lean model'),
     'text': ('PROVED for all inputs (Lean kernel, standard axioms): big-endian int32 encode/decode is the identity on every 32-bit value; the '
              '163 rows of the Zygo header table (generated from _zygo_metadata_helper) are pairwise disjoint, inside the 834-byte buffer and of '
-             'their struct size, hence every field reads back exactly what was packed into it (general lemma for any disjoint table), and the '
+             'their struct size, hence every field reads back exactly what was packed into it and every numeric field of either byte order unpacks '
+             'to the packed value (general lemmas for any disjoint table), the scaling fields read back bit for bit, and the '
              'reader decodes the shape of the written map (rows from cn_height, columns from cn_width); Zygo quantisation error is below one '
              'count for every value and every wavelength, with the reader\'s multiplier the exact inverse of the writer\'s for EVERY rounding '
              'of the float32 wavelength field; the invalid sentinel is sound (valid samples in range never decode invalid, invalid always do); '
@@ -864,7 +892,7 @@ MANIFEST_ENTRY = {
              'float32 field.  TRANSLATED from the current source on every run: header table, writer overrides, reader keys and reshape '
              'order, flips of both formats (np.flipud of a 1-D buffer is recognised as the reversal of the flat buffer), quantisation '
              'formulas, truncation arithmetic, GRD token order, scale choice, NDA/WVL constants, Interferogram unit conversions.  '
-             'MODELLED AND COMPARED: every byte of written .dat files, every token of written grid INT files, every bit of the arrays read '
+             'MODELLED AND COMPARED: every byte of written .dat files, all 158 decoded header fields, every token of written grid INT files, every bit of the arrays read '
              'back, reader behaviour at every truncation point of several files; the property predicates are evaluated on the real '
              'outputs independently of the model.  NOT COVERED: .datx (HDF5) and Zygo ASCII (no writer/reader pair), intensity frames, '
              'float rounding (no theorem speaks about it), text tokenisation of np.fromstring.  Known finding: a Code V grid file cut '
